@@ -258,3 +258,55 @@ package oauth2
 //@   ensures [C18.no-change-before-begin] err != nil && tx_begun == old(tx_begun) && txl ==> tables_unchanged()
 //@   ensures [C18.serialization-is-retryable] txl && err != nil && tx_begun == old(tx_begun) + 1 && faults == old(faults) ==> ekind(err) == "invalid_request"
 //@   ensures [C18.fail-closed] (forall s string :: acc_exists[s] && !old(acc_exists[s]) ==> (forall t string :: old(ref_exists[t]) && old(ref_rid[t]) == rid && t != rsig ==> !ref_active[t]))
+
+// ---------------------------------------------------------------- C06 / C07: HMAC token strategies
+// expired_at: session expiry if set, else requested-at + configured lifespan (documented source order).
+//@ spec func expired_at(exp time.Time, reqAt time.Time, life time.Duration, now time.Time) bool = exp == 0 ? reqAt + life < now : exp < now
+
+//@ func (*HMACSHAStrategyUnPrefixed).ValidateAccessToken
+//@   requires h != nil && r != nil
+//@   ensures [C07.access-token-expiry] err == nil ==> $now >= old($now) && !expired_at(r.GetSession().GetExpiresAt(fosite.AccessToken), r.GetRequestedAt(), h.Config.GetAccessTokenLifespan(ctx), $now)
+//@   ensures [C06.access-token-authentic] err == nil ==> authentic(h.Enigma, token)
+
+//@ func (*HMACSHAStrategyUnPrefixed).ValidateAuthorizeCode
+//@   requires h != nil && r != nil
+//@   ensures [C07.authorize-code-expiry] err == nil ==> $now >= old($now) && !expired_at(r.GetSession().GetExpiresAt(fosite.AuthorizeCode), r.GetRequestedAt(), h.Config.GetAuthorizeCodeLifespan(ctx), $now)
+//@   ensures [C06.authorize-code-authentic] err == nil ==> authentic(h.Enigma, token)
+
+// Refresh tokens: only a session-provided expiry limits them (lifespan -1 = unlimited leaves it unset).
+//@ func (*HMACSHAStrategyUnPrefixed).ValidateRefreshToken
+//@   requires h != nil && r != nil
+//@   ensures [C07.refresh-token-expiry] err == nil && r.GetSession().GetExpiresAt(fosite.RefreshToken) != 0 ==> $now >= old($now) && !(r.GetSession().GetExpiresAt(fosite.RefreshToken) < $now)
+//@   ensures [C06.refresh-token-authentic] err == nil ==> authentic(h.Enigma, token)
+
+//@ func (*HMACSHAStrategyUnPrefixed).AccessTokenSignature
+//@   ensures [C06.signature-is-second-part] result == hmacsig(token)
+//@ func (*HMACSHAStrategyUnPrefixed).RefreshTokenSignature
+//@   ensures [C06.signature-is-second-part] result == hmacsig(token)
+//@ func (*HMACSHAStrategyUnPrefixed).AuthorizeCodeSignature
+//@   ensures [C06.signature-is-second-part] result == hmacsig(token)
+
+//@ func (*HMACSHAStrategyUnPrefixed).GenerateAccessToken
+//@   ensures [C06.generate-shape] err == nil ==> token != "" && signature == hmacsig(token) && authentic(h.Enigma, token)
+//@ func (*HMACSHAStrategyUnPrefixed).GenerateRefreshToken
+//@   ensures [C06.generate-shape] err == nil ==> token != "" && signature == hmacsig(token) && authentic(h.Enigma, token)
+//@ func (*HMACSHAStrategyUnPrefixed).GenerateAuthorizeCode
+//@   ensures [C06.generate-shape] err == nil ==> token != "" && signature == hmacsig(token) && authentic(h.Enigma, token)
+
+// Prefixed strategy: validation strips exactly its own prefix and then applies the rules above.
+//@ func (*HMACSHAStrategy).getPrefix
+//@   pure
+//@ func (*HMACSHAStrategy).trimPrefix
+//@   ensures [C06.prefix-stripped] result == strings.TrimPrefix(token, h.getPrefix(part))
+//@ func (*HMACSHAStrategy).ValidateAccessToken
+//@   requires h != nil && r != nil && h.HMACSHAStrategyUnPrefixed != nil
+//@   ensures [C07.access-token-expiry] err == nil ==> $now >= old($now) && !expired_at(r.GetSession().GetExpiresAt(fosite.AccessToken), r.GetRequestedAt(), h.HMACSHAStrategyUnPrefixed.Config.GetAccessTokenLifespan(ctx), $now)
+//@   ensures [C06.access-token-authentic] err == nil ==> authentic(h.HMACSHAStrategyUnPrefixed.Enigma, strings.TrimPrefix(token, h.getPrefix("at")))
+//@ func (*HMACSHAStrategy).ValidateAuthorizeCode
+//@   requires h != nil && r != nil && h.HMACSHAStrategyUnPrefixed != nil
+//@   ensures [C07.authorize-code-expiry] err == nil ==> $now >= old($now) && !expired_at(r.GetSession().GetExpiresAt(fosite.AuthorizeCode), r.GetRequestedAt(), h.HMACSHAStrategyUnPrefixed.Config.GetAuthorizeCodeLifespan(ctx), $now)
+//@   ensures [C06.authorize-code-authentic] err == nil ==> authentic(h.HMACSHAStrategyUnPrefixed.Enigma, strings.TrimPrefix(token, h.getPrefix("ac")))
+//@ func (*HMACSHAStrategy).ValidateRefreshToken
+//@   requires h != nil && r != nil && h.HMACSHAStrategyUnPrefixed != nil
+//@   ensures [C07.refresh-token-expiry] err == nil && r.GetSession().GetExpiresAt(fosite.RefreshToken) != 0 ==> $now >= old($now) && !(r.GetSession().GetExpiresAt(fosite.RefreshToken) < $now)
+//@   ensures [C06.refresh-token-authentic] err == nil ==> authentic(h.HMACSHAStrategyUnPrefixed.Enigma, strings.TrimPrefix(token, h.getPrefix("rt")))
